@@ -23,6 +23,14 @@ ProbesDef(D) ==
     ELSE << <<Zero, Zero, Zero>>, <<One, Zero, Zero>>, <<Zero, One, Zero>>, <<Zero, Zero, One>>, <<R(-3,2), R(5,2), R(1,4)>> >>
 AllPairs == AxesSet \X AxesSet
 
+\* ---------------------------------------------------------------- ITK (C02): sizes incl. 1, more origins, outside probes
+ISizesOf(D) == IF D = 2 THEN {<<2, 3>>, <<7, 4>>, <<1, 5>>, <<6, 1>>} ELSE {<<2, 3, 5>>, <<4, 1, 3>>, <<1, 1, 6>>}
+ProbesItk(D) ==
+    IF D = 2 THEN << <<Zero, Zero>>, <<One, Zero>>, <<Zero, One>>, <<R(-3,2), R(5,2)>>, <<RI(12), RI(-7)>>, <<R(7,4), R(1,2)>> >>
+    ELSE << <<Zero, Zero, Zero>>, <<One, Zero, Zero>>, <<Zero, One, Zero>>, <<Zero, Zero, One>>, <<R(-3,2), R(5,2), R(1,4)>>, <<RI(9), RI(-4), RI(11)>> >>
+NoPairs == {}
+QIRotsOf(D) == QRotsOf(D) \cup (IF D = 2 THEN {Rot2Of(CS_180), FlipX(Rot2Of(CS_90))} ELSE {QuatMat(<<1,1,0,0>>), QuatMat(<<0,1,1,0>>)})
+
 \* ------------------------------------------------------------- thorough
 TRotsOf(D) ==
     IF D = 2 THEN {Rot2Of(cs) : cs \in CSAll} \cup {FlipX(Rot2Of(cs)) : cs \in {CS_Id, CS_90, CS_5_13, CS_8_17}}
@@ -42,4 +50,5 @@ TOthersOf(D) ==
                    [n |-> <<2, 9>>, h |-> <<R(3,4), R(1,4)>>, c |-> <<RI(-2), RI(5)>>, R |-> FlipX(Rot2Of(CS_7_25)), ac |-> TRUE]}
     ELSE {[n |-> <<3, 5, 2>>, h |-> <<Two, R(1,2), One>>, c |-> <<One, R(-1,2), Two>>, R |-> QuatMat(<<4,-2,1,2>>), ac |-> TRUE],
           [n |-> <<4, 4, 6>>, h |-> <<One, One, R(3,2)>>, c |-> <<Zero, Zero, One>>, R |-> QuatMat(<<1,1,0,0>>), ac |-> FALSE]}
+TISpacingsOf(D) == TSpacingsOf(D) \cup (IF D = 2 THEN {<<R(1,4), RI(3)>>} ELSE {<<R(1,4), RI(3), R(7,10)>>})
 =============================================================================
